@@ -212,6 +212,13 @@ def main():
         return common.finish(rep)
     scns = scenrun.enumerate_scenarios(rep, "MC_XWorldSingle", cfg(rep.tier), f"c15_{rep.tier}")
     findings = scenrun.evaluate(rep, scns, evaluate, procs=a.procs)
+
+    def _mut(s):
+        if s["cfg"]["frac"][1] == 0 or s["cfg"]["irr"] != [3, 10] or s["cfg"]["dtype"] != "real" or s["cfg"]["solver"] != "full":
+            return None
+        s["pred"]["warn"] = not s["pred"]["warn"]
+        return s
+    scenrun.self_test(rep, scns, evaluate, _mut, "predicted warning flipped", tries=4000)
     findings += seeds_and_kwargs(rep, a)
     scenrun.report(rep, findings, TAGS)
     rep.exhaustive = True
